@@ -402,6 +402,8 @@ def sc_fc(name, groups, expected):
         gkeys_.append(keys)
         slots += [(("fc", k, text), j) for k, j in zip(keys, occurrences(keys))]
 
+    cache = {}
+
     def fn(sc, yields):
         from ahbicht.expressions.format_constraint_expression_evaluation import format_constraint_evaluation
 
@@ -415,10 +417,18 @@ def sc_fc(name, groups, expected):
                 return await one(*groups[0])
             return await asyncio.gather(*[one(t, e) for t, e in groups])
 
+        if "alone" not in cache:  # every evaluation on its own, nothing else running (oracle: "each sees only its own data")
+            cache["alone"] = []
+            for t, e in groups:
+                H.reset(fc_expected=expected, yields={})
+                cache["alone"].append(canon(H.run(lambda t=t, e=e: one(t, e))))
         H.reset(fc_expected=expected, yields=yields)
         out = H.run(main)
         # oracle part: every FC evaluator saw, after yielding, the text of its own task
         leaks = [e for e in H.log if e[0] == "fc" and e[2] != e[3]]
+        if out[0] == "ok":
+            got = [canon(("ok", r)) for r in (out[1] if len(groups) > 1 else [out[1]])]
+            leaks += [("not-own", groups[i], a, g) for i, (a, g) in enumerate(zip(cache["alone"], got)) if a != g]
         cases = []
         per_group = []
         for (text, _), keys in zip(groups, gkeys_):
